@@ -207,7 +207,15 @@ class SortedLookupMapColumn(NoValueColumn):
     the current frame to the returned records. Returns an empty set if no records match.
     """
     key = tuple(_extract(val) for val in key)
-    self._relation_tracker.update_relation_from_current_node(key)
+    try:
+      self._relation_tracker.update_relation_from_current_node(key)
+    except TypeError:
+      # The key is unusable (e.g. unhashable): the caller now depends on this helper, so it must
+      # depend on the lookup map we sort as well (this raises the same error after recording that).
+      # Otherwise that map could get cleaned up as unused and re-created later, while this helper
+      # lives on and keeps answering from the discarded map.
+      self._lookup_col._relation_tracker.update_relation_from_current_node(key)
+      raise
     row_ids, rel = self._lookup_col._do_lookup_with_sort(key, self._sort_spec, self._sort_key)
     return row_ids, rel
 
